@@ -75,7 +75,9 @@ class EscapeHooks:
         self.tracked_names = set(tracked) | self.io_names
         self.havoc = havoc_heap
 
-    def _outcomes(self, ex, st, name, node):
+    def _outcomes(self, ex, st, name, node, args=()):
+        for a in args:
+            st.escape(a)
         short = name.split('.')[-1].split(':')[-1]
         st.ghost['calls'] = st.ghost.get('calls', ()) + (short,)
         if self.havoc:
@@ -99,7 +101,8 @@ class EscapeHooks:
         if fv.t == 'repo' and fv.qual in ex.ctx.inline:
             return None
         name = keys[0] if keys else getattr(fv, 'name', 'call')
-        return self._outcomes(ex, st, name, node)
+        recv = [fv.recv] if fv.t == 'method' else ([fv.self_v] if getattr(fv, 'self_v', None) is not None else [])
+        return self._outcomes(ex, st, name, node, recv + list(args) + list(kwargs.values()))
 
     def on_call_value(self, ex, st, f, args, kwargs, node):
-        return self._outcomes(ex, st, f.path or 'value', node)
+        return self._outcomes(ex, st, f.path or 'value', node, list(args) + list(kwargs.values()))
